@@ -58,6 +58,9 @@ func genC08E2E(p *sim.Plan, r *sim.Rand) {
 		kind := []string{"nsp", "room", "except", "direct"}[r.Intn(4)]
 		p.Ops = append(p.Ops, sim.Op{At: at, Actor: 0, Kind: kind, I: []int64{int64(i + 1), int64(r.Intn(8)), int64(r.Intn(8)), int64(r.Intn(4) / 3)}})
 	}
+	if p.Mode == "raw" {
+		p.SetB("double", r.Bool(0.3))
+	}
 	if p.Mode == "goclient" {
 		// a handler that takes its time: events received before the cut are still waiting for their
 		// turn when the connection goes (plus a cluster of events right before the cut)
@@ -150,7 +153,7 @@ func runC08Raw(e *sim.Env) {
 		if !s.Socket.Recovered() && len(rooms) > 0 {
 			s.Socket.Join(rooms...)
 		}
-		if s.Socket.Recovered() {
+		if s.Socket.Recovered() && !recoveredSeen {
 			recoveredSeen = true
 			for _, r := range s.Socket.Rooms().ToSlice() {
 				recoveredRooms = append(recoveredRooms, string(r))
@@ -165,6 +168,7 @@ func runC08Raw(e *sim.Env) {
 	var mu sync.Mutex
 	var got []c08Got
 	var broken []string
+	var connectErrors []string
 	phase := 0
 	connects := []map[string]string{}
 	session := func(auth string) (sid string, stop func()) {
@@ -198,6 +202,9 @@ func runC08Raw(e *sim.Env) {
 					switch {
 					case kind == "broken":
 						broken = append(broken, text)
+					case strings.HasPrefix(text, "4{"):
+						connectErrors = append(connectErrors, fmt.Sprintf("phase %d: %s", phase, text))
+						e.Log(0, "raw.connect_error", "%s", text)
 					case strings.HasPrefix(text, "0{"):
 						var m map[string]string
 						json.Unmarshal([]byte(text[1:]), &m)
@@ -309,6 +316,54 @@ func runC08Raw(e *sim.Env) {
 	auth, _ := json.Marshal(map[string]string{"pid": pid, "offset": lastOffset})
 	_, stop2 := session(string(auth))
 	world.WaitUntil(10*time.Second, func() bool { mu.Lock(); defer mu.Unlock(); return len(connects) == 2 })
+	if p.B("double") {
+		// The connection drops again right after the CONNECT reply: the peer comes back a second time with
+		// what it held before (same private id, same offset) and must be served the same way again -
+		// the log entries are shared by every session that recovers, now or later.
+		time.Sleep(50 * time.Millisecond)
+		mu.Lock()
+		recoveredOnce := len(connects) == 2 && connects[1]["sid"] == sid1
+		gotPhase1 := map[int64]bool{}
+		for _, g := range got {
+			if g.phase == 1 {
+				gotPhase1[g.id] = true
+			}
+		}
+		mu.Unlock()
+		stop2()
+		time.Sleep(100 * time.Millisecond)
+		mu.Lock()
+		phase = 2
+		mu.Unlock()
+		_, stop3 := session(string(auth))
+		world.WaitUntil(10*time.Second, func() bool {
+			mu.Lock()
+			defer mu.Unlock()
+			return len(connects) == 3 || len(connectErrors) > 0
+		})
+		time.Sleep(500 * time.Millisecond)
+		mu.Lock()
+		e.Check()
+		if len(connectErrors) > 0 {
+			e.Violate("C08/connect-error-on-recovery", "raw second recovery", "the CONNECT of a returning session was refused: %v", connectErrors)
+		} else if len(connects) == 3 && recoveredOnce && connects[2]["sid"] == sid1 && e.Now()-discAt < int64(W)-int64(time.Second) {
+			for id := range gotPhase1 {
+				found := false
+				for _, g := range got {
+					if g.phase == 2 && g.id == id {
+						found = true
+					}
+				}
+				e.Check()
+				if !found {
+					e.Violate("C08/recovered-with-gap", "raw second recovery", "event #%d was replayed to the session at its first return and not at its second return from the same offset", id)
+					break
+				}
+			}
+		}
+		mu.Unlock()
+		stop2 = stop3
+	}
 	time.Sleep(time.Duration(p.Horizon) - time.Duration(e.Now()-base))
 	stop2()
 
